@@ -190,7 +190,7 @@ def items():
         ("$a < np.abs($x)", "({x}.map fun v => decide ({a} < rabs v))"),
         ("np.logical_and($a, $b)", "(List.zipWith (· && ·) {a} {b})"),
         ("$x.shape[1]", "({x}.length)"), ("$x[:, 0]", "({x}.getD 0 [])"), ("$x[:, $m]", "(maskSel {x} {m})"),
-        ("$x[$m]", "(maskSel {x} {m})"),
+        ("$x[$m]", "(PyMask.sel {x} {m})"),
         ("$v / np.sqrt(($v ** 2).sum())", "(normalizeL sqrt {v})"),
         ("$a - np.random.rand($a.size)", "(vecSub {a} rand)"), ("np.cross($a, $b)", "(crossL {a} {b})"),
         ("np.dot($s.rotation_matrix, $v)", "(matVec {s}.linRows {v})"), ("np.dot($a, $b)", "(dotL {a} {b})"),
@@ -231,7 +231,7 @@ def items():
                    ("$s[$i]", "({s}.getD {i} 0)"), ("$x not in [2, 3]", "(!(({x}) == 2 || ({x}) == 3))"),
                    ("np.asarray($x)", "{x}"), ("np.eye($k)", "(ArrV.eye {k})")]
     seth = R(expr=[("$v.copy()", "{v}"), ("$s.h_matrix", "({s}.h)"), ("$s.n_dims", "({s}.nDimsI)"),
-                   ("np.allclose($v[-1, :-1], 0)", "({v}.affineBottom)"), ("np.allclose($v[-1, -1], 1)", "({v}.affineBottom)")]
+                   ("np.allclose($v[-1, :-1], 0)", "({v}.bottomZeros)"), ("np.allclose($v[-1, -1], 1)", "({v}.cornerOne)")]
              + shape_rules,
              stmt=[("$s._h_matrix = $v", "s", "({s}.withH {v})")], ret=".ok {self}", end=".ok {self}")
     out.append(("def genHomogeneousSetH (self : HState) (value : ArrV) (copy skipchecks : Bool) : %s :=" % HS,
